@@ -223,6 +223,7 @@ func (ix *idxEngine) lenFacts(p *prover, v ssa.Value, t string, at ssa.Instructi
 	// struct-valued call results whose field is a parameter of the callee (ForColumnWidths)
 	out = append(out, ix.resultFieldFacts(p, v, t)...)
 	out = append(out, ix.resultLenFacts(p, v, t, at)...)
+	out = append(out, ix.heapLoopFacts(p, v, t, at)...)
 	return out
 }
 
@@ -261,6 +262,19 @@ func (ix *idxEngine) invariantHolds(inv structInv) bool {
 		byFn[fs.Fn] = append(byFn[fs.Fn], fs)
 	}
 	for fn, stores := range byFn {
+		if !ix.invariantSimple(fn, inv, stores) && !ix.invariantAtExits(fn, inv, stores) {
+			ok = false
+		}
+	}
+	ix.invOK[inv.Slice] = ok
+	return ok
+}
+
+// invariantSimple: the plain shapes - a constructor storing both fields of its fresh object once, or a writer
+// storing both fields of an existing object side by side with no call in between.
+func (ix *idxEngine) invariantSimple(fn *ssa.Function, inv structInv, stores []fieldStore) bool {
+	ok := true
+	for once := true; once; once = false {
 		var ss, is *fieldStore
 		fresh := true
 		for i := range stores {
@@ -325,7 +339,6 @@ func (ix *idxEngine) invariantHolds(inv structInv) bool {
 			ok = false
 		}
 	}
-	ix.invOK[inv.Slice] = ok
 	return ok
 }
 
